@@ -2092,6 +2092,84 @@ ALL_KINDS = ["scalar", "str"] + SIZED + LAZY + STREAMS
 TUPLE_ITEM_KINDS = ("zip", "zip_longest", "enumerate")
 
 
+# user SUBCLASSES of the sized containers: the class identity is part of the kind ("sub:<base>:<number>"); the result of a
+# broadcast function must be of that very class (`type(res) is type(arg)`), whatever `isinstance` sees behind it
+import collections.abc as _abc
+
+
+class Vector(tuple):
+    """ the ordinary tuple subclass with domain methods """
+    def norm(self):
+        return sum(v * v for v in self) ** 0.5
+
+
+class Vector3(Vector):
+    """ a subclass of a subclass, with an attribute-less __slots__ """
+    __slots__ = ()
+
+
+class PlainTuple(tuple):
+    pass
+
+
+class Samples(list):
+    def rms(self):
+        return (sum(v * v for v in self) / max(len(self), 1)) ** 0.5
+
+
+class PlainList(list):
+    pass
+
+
+class TagSet(set):
+    def tags(self):
+        return sorted(self, key=repr)
+
+
+class FrozenBag(frozenset):
+    pass
+
+
+class Ring(deque):
+    def head(self):
+        return self[0]
+
+
+class UserSeq(_abc.Sequence):
+    """ a user Sequence that derives from no builtin container; constructor takes one iterable """
+    def __init__(self, data=()):
+        self._d = list(data)
+
+    def __getitem__(self, i):
+        return self._d[i]
+
+    def __len__(self):
+        return len(self._d)
+
+
+SUBCLASSES = [("tuple", Vector), ("tuple", PlainTuple), ("tuple", Vector3), ("list", Samples), ("list", PlainList),
+              ("set", TagSet), ("frozenset", FrozenBag), ("deque", Ring), ("sequence", UserSeq)]
+SUB_KINDS = ["sub:%s:%d" % (b, i) for i, (b, _c) in enumerate(SUBCLASSES)]
+BUILTIN_OF = {"list": list, "tuple": tuple, "set": set, "frozenset": frozenset, "deque": deque}
+
+
+def kind_base(k):
+    """ the builtin behaviour class of a container kind """
+    return k.split(":")[1] if k.startswith("sub:") else k
+
+
+def kind_class(k):
+    return SUBCLASSES[int(k.split(":")[2])][1] if k.startswith("sub:") else BUILTIN_OF[k]
+
+
+def is_setlike(k):
+    return kind_base(k) in ("set", "frozenset")
+
+
+def is_sized_kind(k):
+    return k in SIZED or k.startswith("sub:")
+
+
 class KW(object):
     def __init__(self, name):
         self.name = name
@@ -2153,9 +2231,9 @@ def bcast_items(c):
     """ the elements of the argument in iteration order, as the function sees them """
     vals = [dec_val(x) for x in c["xs"]]
     k = c["kind"]
-    if k in ("set", "frozenset"):
+    if is_setlike(k):
         # iteration order of the very same construction (deterministic: PYTHONHASHSEED is fixed by ./check)
-        return vals, list(set(vals) if k == "set" else frozenset(vals))
+        return vals, list(kind_class(k)(vals))
     if k == "range":
         a = BFUNCS.get(c["func"], ("", 0, "", 0, False))[3]
         vals = list(range(a, a + len(vals)))
@@ -2194,7 +2272,7 @@ def bcast_layout(c):
     lean_kind = {"thub": "streamSub", "ControlStream": "streamSub"}.get(k, k[:-4] if k in INF_LAZY else k)
     if k in ("scalar", "str"):
         arg = {"c": "obj", "kind": lean_kind, "self": ids[0]}
-    elif k in SIZED:
+    elif is_sized_kind(k):
         arg = {"c": "sized", "kind": lean_kind, "tag": 0, "xs": ids}
     elif k == "ControlStream" or k in INF_LAZY:
         arg = {"c": "lazy", "kind": lean_kind, "rep": ids[0]}
@@ -2236,6 +2314,8 @@ def impl_bcast(c):
         arg, counting = set(raw), False
     elif k == "frozenset":
         arg, counting = frozenset(raw), False
+    elif k.startswith("sub:"):
+        arg, counting = kind_class(k)(raw), False
     elif k == "generator":
         arg = src()
     elif k == "range":
@@ -2264,7 +2344,7 @@ def impl_bcast(c):
         arg, counting = filter(lambda v: True, it.repeat(raw[0])), False
     else:
         raise ValueError(k)
-    if k in ("set", "frozenset") and list(arg) != items:
+    if is_setlike(k) and list(arg) != items:
         return {"err": "UNSUPPORTED:set order"}
     f = bfun(c["func"])
     dn = BFUNCS[c["func"]][0]
@@ -2283,7 +2363,8 @@ def impl_bcast(c):
         out = "generator"
     elif isinstance(res, Stream):
         out = "stream"
-    elif k in SIZED:
+    elif is_sized_kind(k):
+        # the observation is the class identity: `type(res) is type(arg)` (an `==` against a tuple would not see a downcast)
         out = ("same:" + k) if type(res) is type(arg) else "other:" + type(res).__name__
     elif k in ("scalar", "str"):
         out = "value"
@@ -2314,7 +2395,7 @@ def impl_bcast(c):
             end = "err:" + err_kind(e)
     else:
         vals = [res]
-    if k in ("set", "frozenset"):
+    if is_setlike(k):
         obs["items"] = sorted(canon(v) for v in vals)
     else:
         obs["items"] = [canon(v) for v in vals]
@@ -2360,7 +2441,7 @@ def _cmp_bcast_side(c, io, side, label, env, with_reads):
     if io["out"] != exp_out:
         out.append("kind of the result: impl %s, %s %s (argument: %s)" % (io["out"], label, exp_out, k))
         return out
-    if k in ("set", "frozenset"):
+    if is_setlike(k):
         try:
             want = sorted(canon(v) for v in type(set())(vals))
         except TypeError:
@@ -2450,6 +2531,13 @@ def generate_bcast(rng, tier, scale):
                 cases.append(bcast_case(fn, kind, vals, "pos"))
                 if dn and not composite and kind in ("scalar", "list", "tuple", "generator", "stream", "set", "map"):
                     cases.append(bcast_case(fn, kind, vals, "kw"))
+            # user subclasses of the sized containers (class identity), by position and by keyword
+            if not fn.startswith("trace.") or dp in (None, 0):
+                for kind in SUB_KINDS:
+                    vals = [v for v in xs if not (isinstance(v, float) and v != v)] if is_setlike(kind) else xs
+                    cases.append(bcast_case(fn, kind, vals, "pos"))
+                    if dn and not composite:
+                        cases.append(bcast_case(fn, kind, vals, "kw"))
             # fewer items than asked for / more items than asked for / empty
             for kind in ("generator", "stream", "list", "filter", "tuple", "deque", "set"):
                 cases.append(bcast_case(fn, kind, [], "pos"))
@@ -2491,12 +2579,14 @@ def generate_bcast(rng, tier, scale):
         fn = rng.choice(names)
         dn, dp, pool, _r0, composite = BFUNCS[fn]
         kind = rng.choice([k for k in ALL_KINDS if not (composite and k in TUPLE_ITEM_KINDS)])
+        if rng.random() < 0.25:
+            kind = rng.choice(SUB_KINDS)
         base = POOLS[pool]
         m = rng.choice([0, 1, 2, 3, 5, 8])
         vals = [rng.choice(base) for _ in range(m)] or ([] if kind not in ("scalar", "str", "ControlStream") + tuple(INF_LAZY) else base[:1])
         if kind == "str" and pool != "note":
             vals = [{"T": rng.choice(["abc", "", "x"])}]
-        if kind in ("set", "frozenset"):
+        if is_setlike(kind):
             vals = [v for v in vals if not (isinstance(v, float) and v != v)]
         route = "pos"
         before = []
@@ -2511,6 +2601,9 @@ def generate_bcast(rng, tier, scale):
 def tally_bcast(eng, c, io):
     eng.count("bcast_func", c["func"])
     eng.count("bcast_kind", c["kind"])
+    if c["kind"].startswith("sub:"):
+        eng.count("bcast_subclass", "%s(%s) | %s" % (kind_class(c["kind"]).__name__, kind_base(c["kind"]), c.get("route", "pos")))
+        eng.count("bcast_subclass_func", c["func"])
     eng.count("bcast_route", c.get("route", "pos") + ("+extra" if c.get("before") or c.get("after") or c.get("kwargs") else ""))
     eng.count("bcast_out", io.get("out", "raised:" + str(io.get("err"))))
     if "err" not in io:
@@ -2534,7 +2627,7 @@ def shrink_bcast(c):
 
 
 def neighbours_bcast(c):
-    for kind in ALL_KINDS:
+    for kind in ALL_KINDS + SUB_KINDS:
         if kind != c["kind"] and not (BFUNCS[c["func"]][4] and kind in TUPLE_ITEM_KINDS):
             xs = c["xs"] if kind != "str" or BFUNCS[c["func"]][2] == "note" else [{"T": "abc"}]
             if (kind in ("scalar", "ControlStream") or kind in INF_LAZY) and not xs:
@@ -2546,7 +2639,7 @@ def neighbours_bcast(c):
 
 
 def _kind_class(k):
-    return "scalar" if k in ("scalar", "str") else "sized" if k in SIZED else "stream" if k in STREAMS else "lazy"
+    return "scalar" if k in ("scalar", "str") else "sized-subclass" if k.startswith("sub:") else "sized" if k in SIZED else "stream" if k in STREAMS else "lazy"
 
 
 def classify_bcast(c, io, drv):
